@@ -158,6 +158,23 @@ class RefPeer:
         elif c not in (R.RTS, R.CTS, R.EOM_ACK, R.BAM, R.ABORT):
             self._err("cm-control", "TP.CM control byte %d" % c)
 
+    def _lost_dt(self, s, fate):
+        """A data frame did not reach this responder.  With fate["late"] it behaves like a conforming responder whose
+        receive time-out (T1/T2, with its own timer tolerance) then expires: it sends a Connection Abort (reason 3)."""
+        first = not s.get("lost")
+        s["lost"] = True
+        if first and fate.get("late"):
+            def give_up():
+                if s["done"] or self.silent:
+                    return
+                s["done"] = True
+                s["aborted_by_me"] = self.sim.now
+                if self.fd:
+                    self.send(7, R.FD_CM_PF, s["src"], R.fd_abort(s["session"], 3, s["pgn"]))
+                else:
+                    self.send(7, R.TP_CM_PF, s["src"], R.tp_abort(3, s["pgn"]))
+            self.sim.schedule(self.sim.now + fate["late"], give_up)
+
     def _grant(self, s):
         """Responder: decide the next CTS (holds first, then a window)."""
         holds = self._next(self.holds, "_hi")
@@ -211,7 +228,7 @@ class RefPeer:
         s["dt_seen"] = s.get("dt_seen", 0) + 1
         fate = s.get("fate") or {}
         if fate.get("f") == "ignore_dt" and s["dt_seen"] >= fate.get("k", 1):
-            s["lost"] = True
+            self._lost_dt(s, fate)
             return
         if seq != s["next"]:
             self._err("dt-sequence", "TP.DT sequence %d, expected %d" % (seq, s["next"]))
@@ -436,7 +453,7 @@ class RefPeer:
         s["dt_seen"] = s.get("dt_seen", 0) + 1
         fate = s.get("fate") or {}
         if fate.get("f") == "ignore_dt" and s["dt_seen"] >= fate.get("k", 1):
-            s["lost"] = True
+            self._lost_dt(s, fate)
             return
         if seg != s["next"]:
             self._err("dt-sequence", "FD.TP.DT segment %d, expected %d" % (seg, s["next"]))
